@@ -152,14 +152,7 @@ def litSpec (imax lmax llmax : Nat) (base : Base) (us : Bool) (longs value : Nat
     (if us = false then [(CT.llong, llmax)] else []) ++
     (if us = true ∨ nondec = true then [(CT.ullong, 2 * llmax + 1)] else []))
 
-/-- K6: a hexadecimal / binary literal (with or without `u`) whose value lies in the window the code's `value >> 2`
-    test wrongly admits: `UINT_MAX < value ≤ 2*UINT_MAX+1` (typed `unsigned int`), resp. the same for `long` -/
-def hexWindow (imax lmax : Nat) (base : Base) (longs value : Nat) : Bool :=
-  base == .hex &&
-  ((longs == 0 && decide (2 * imax + 2 ≤ value) && decide (value ≤ 4 * imax + 3)) ||
-   (decide (longs ≤ 1) && decide (2 * lmax + 2 ≤ value) && decide (value ≤ 4 * lmax + 3)))
-
-/-- K7: an octal literal without `u` whose language type is `unsigned int` / `unsigned long` (it fits the unsigned but
+/-- K6: an octal literal without `u` whose language type is `unsigned int` / `unsigned long` (it fits the unsigned but
     not the signed type of that rank): the code treats it as a decimal literal (`MathLib::isDec` accepts any digit
     string) and never considers these types -/
 def octalAsDecimal (imax lmax : Nat) (base : Base) (us : Bool) (longs value : Nat) : Bool :=
